@@ -598,7 +598,7 @@ def c12_monitor(ctx, tr, ix):
                             # the book-closure handler runs before the payable handler, so "payable today" is lost as well
                             actions.append("overlapping_dividend")
                 for ex, ratio in S["split"].get(oid, []):
-                    if ex == today8 * 1000000 and q:
+                    if ex == today8 * 1000000 and (q or reinvested[oid]):      # (a sold-out holding whose receivable is reinvested this morning is split too)
                         actions.append("split")
                         ph = next((x for x in post["holdings"] if x["id"] == oid), None)
                         if ph is not None:
